@@ -20,9 +20,9 @@ vars == <<l, bad, drift>>
 ArriveOK(e) == e.obs.compiled => (e.obs.ran /\ e.obs.via_trait = e.expect /\ e.obs.direct = e.expect)
 Fail(e) == R!C16_Fail(e.l1, e.obs) \cup (IF ArriveOK(e) THEN {} ELSE {"arrive"})
 
-DriftFields == {"expanded", "panic", "tkind", "tname", "tdeco", "callee", "selfarg", "callargs", "compiled"}
+DriftFields == {"expanded", "panic", "tkind", "tname", "tdeco", "inserted", "callee", "selfarg", "callargs", "compiled"}
 Txt(ns) == [i \in DOMAIN ns |-> <<ns[i].raw, ns[i].base>>]
-Same(f, a, b) == IF f \in {"tname", "callargs"} THEN Txt(a) = Txt(b) ELSE a = b
+Same(f, a, b) == IF f \in {"tname", "callargs", "inserted"} THEN Txt(a) = Txt(b) ELSE a = b
 Drifts(e) == { f \in DriftFields : ~Same(f, e.obs[f], e.pred[f]) }
 
 Init == l = 1 /\ bad = {} /\ drift = {}
